@@ -335,6 +335,390 @@ theorem mw_rejects_with_429 (cfg : MwCfg) (txt : Bytes) (o : Out) (h : o.allowed
     (mwBucket cfg txt o).retryAfter = some o.reset := by
   unfold mwBucket; simp [h, he, hc]
 
+/-! ## sliding window, requests served one after the other -/
+
+/-- one request served without interruption: `GetCounts`, the decision, `Incr` -/
+def serve1 (cfg : WinCfg) (txt : Bytes) (st : WinStore) (q : WinReq) : WinStore × WinObs :=
+  (st.set q.key (incr cfg.W (some (getCounts cfg.W (st.lookup q.key) q.now)) q.now),
+   winAnswer cfg txt (decide_ cfg.limit cfg.W (getCounts cfg.W (st.lookup q.key) q.now) q.now))
+
+def runSerial (cfg : WinCfg) (txt : Bytes) : WinStore → Nat → List WinReq → List (Nat × WinObs)
+  | _, _, [] => []
+  | st, i, q :: rest => (i, (serve1 cfg txt st q).2) :: runSerial cfg txt (serve1 cfg txt st q).1 (i + 1) rest
+
+theorem lemma_wset_nil (k : Bytes) (w : Win) : WinStore.set [] k w = [(k, w)] := rfl
+theorem lemma_wset_cons (k' : Bytes) (v : Win) (rest : WinStore) (k : Bytes) (w : Win) :
+    WinStore.set ((k', v) :: rest) k w = if (k == k') = true then (k', w) :: rest else (k', v) :: WinStore.set rest k w := by
+  rw [WinStore.set]
+
+/-- setting a key twice keeps the second value -/
+theorem lemma_wset_set (st : WinStore) (k : Bytes) (w w2 : Win) : (st.set k w).set k w2 = st.set k w2 := by
+  induction st with
+  | nil => simp [lemma_wset_nil, lemma_wset_cons]
+  | cons kv rest ih =>
+    obtain ⟨k', v⟩ := kv
+    by_cases h : (k == k') = true
+    · simp [lemma_wset_cons, h]
+    · have h' : (k == k') = false := by simpa using h
+      simp only [lemma_wset_cons, h', Bool.false_eq_true, if_false, ih]
+
+theorem lemma_wlookup_set_self (st : WinStore) (k : Bytes) (w : Win) : (st.set k w).lookup k = some w := by
+  induction st with
+  | nil => simp [lemma_wset_nil]
+  | cons kv rest ih =>
+    obtain ⟨k', v⟩ := kv
+    rw [lemma_wset_cons]
+    by_cases h : (k == k') = true
+    · simp only [h, if_true]
+      have : k = k' := by simpa using h
+      subst this
+      simp
+    · have h' : (k == k') = false := by simpa using h
+      simp only [h', Bool.false_eq_true, if_false]
+      rw [List.lookup_cons, h']
+      exact ih
+
+theorem lemma_wlookup_set_other (st : WinStore) (k k2 : Bytes) (w : Win) (hne : k2 ≠ k) :
+    (st.set k w).lookup k2 = st.lookup k2 := by
+  have hk2 : (k2 == k) = false := by simpa using hne
+  induction st with
+  | nil => simp [lemma_wset_nil, hne]
+  | cons kv rest ih =>
+    obtain ⟨k', v⟩ := kv
+    rw [lemma_wset_cons]
+    by_cases h : (k == k') = true
+    · have hk : k = k' := by simpa using h
+      subst hk
+      simp only [h, if_true]
+      rw [List.lookup_cons, List.lookup_cons, hk2]
+    · have h' : (k == k') = false := by simpa using h
+      simp only [h', Bool.false_eq_true, if_false]
+      rw [List.lookup_cons, List.lookup_cons, ih]
+
+/-- the two steps of request `i`, run back to back, are `serve1` -/
+theorem lemma_step_pair (cfg : WinCfg) (txt : Bytes) (reqs : List WinReq) (s : WinState) (i : Nat) (q : WinReq)
+    (hq : reqs[i]? = some q) :
+    stepWin cfg txt reqs (stepWin cfg txt reqs s (.get i)) (.inc i) =
+      { store := (serve1 cfg txt s.store q).1,
+        pending := (i, decide_ cfg.limit cfg.W (getCounts cfg.W (s.store.lookup q.key) q.now) q.now) :: s.pending,
+        answers := s.answers ++ [(i, (serve1 cfg txt s.store q).2)] } := by
+  simp only [stepWin, hq, List.lookup_cons, beq_self_eq_true, lemma_wlookup_set_self, serve1]
+  rw [lemma_wset_set]
+
+/-- running the serial schedule from request `pre.length` on is `runSerial` -/
+theorem lemma_serial_fold (cfg : WinCfg) (txt : Bytes) (reqs : List WinReq) (rest pre : List WinReq) (s : WinState)
+    (hreqs : reqs = pre ++ rest) :
+    (((List.range' pre.length rest.length).flatMap fun i => [Op.get i, Op.inc i]).foldl (stepWin cfg txt reqs) s).answers
+      = s.answers ++ runSerial cfg txt s.store pre.length rest := by
+  induction rest generalizing pre s with
+  | nil => simp [runSerial]
+  | cons q rest ih =>
+    have hq : reqs[pre.length]? = some q := by rw [hreqs]; simp
+    simp only [List.length_cons, List.range'_succ, List.flatMap_cons, List.foldl_append, List.foldl_cons, List.foldl_nil]
+    rw [lemma_step_pair cfg txt reqs s pre.length q hq]
+    have := ih (pre ++ [q])
+      (⟨(serve1 cfg txt s.store q).1,
+        (pre.length, decide_ cfg.limit cfg.W (getCounts cfg.W (s.store.lookup q.key) q.now) q.now) :: s.pending,
+        s.answers ++ [(pre.length, (serve1 cfg txt s.store q).2)]⟩ : WinState) (by rw [hreqs]; simp)
+    simp only [List.length_append, List.length_cons, List.length_nil, Nat.zero_add] at this
+    rw [this]
+    simp [runSerial]
+
+/-- **the serial schedule is `runSerial`** -/
+theorem lemma_runWin_serial (cfg : WinCfg) (txt : Bytes) (reqs : List WinReq) :
+    runWin cfg txt reqs (serial reqs.length) = runSerial cfg txt [] 0 reqs := by
+  unfold runWin serial
+  rw [List.range_eq_range']
+  have := lemma_serial_fold cfg txt reqs reqs [] { store := [], pending := [], answers := [] } rfl
+  simpa using this
+
+/-! ### the counting invariant -/
+
+/-- what a served request contributes to the admitted list: its key and window, if the handler ran -/
+def adm1 (cfg : WinCfg) (q : WinReq) (o : WinObs) : List (Bytes × Nat) :=
+  if o.ran then [(q.key, windowStart cfg.W q.now)] else []
+
+def admSerial (cfg : WinCfg) (txt : Bytes) : WinStore → List WinReq → List (Bytes × Nat)
+  | _, [] => []
+  | st, q :: rest => adm1 cfg q (serve1 cfg txt st q).2 ++ admSerial cfg txt (serve1 cfg txt st q).1 rest
+
+/-- requests already counted for key `k` in the window starting at `ws` -/
+def counted (st : WinStore) (k : Bytes) (ws : Nat) : Nat :=
+  match st.lookup k with
+  | some w => if w.ws = ws then w.cur else 0
+  | none => 0
+
+def cnt (kw : Bytes × Nat) (l : List (Bytes × Nat)) : Nat := (l.filter (· == kw)).length
+
+theorem lemma_cnt_append (kw : Bytes × Nat) (a b : List (Bytes × Nat)) : cnt kw (a ++ b) = cnt kw a + cnt kw b := by
+  simp [cnt, List.filter_append]
+
+theorem lemma_windowStart_mono (W a b : Nat) (h : a ≤ b) : windowStart W a ≤ windowStart W b := by
+  unfold windowStart
+  exact Nat.mul_le_mul_right _ (Nat.div_le_div_right h)
+
+/-- an admitted request's window is the window of one of the requests -/
+theorem lemma_adm_windows (cfg : WinCfg) (txt : Bytes) (st : WinStore) (reqs : List WinReq) (kw : Bytes × Nat)
+    (h : kw ∈ admSerial cfg txt st reqs) : ∃ q ∈ reqs, kw.2 = windowStart cfg.W q.now := by
+  induction reqs generalizing st with
+  | nil => simp [admSerial] at h
+  | cons q rest ih =>
+    simp only [admSerial, List.mem_append] at h
+    rcases h with h | h
+    · unfold adm1 at h
+      split at h
+      · simp at h; exact ⟨q, List.mem_cons_self .., by rw [h]⟩
+      · simp at h
+    · obtain ⟨q', hq', he⟩ := ih _ h
+      exact ⟨q', List.mem_cons_of_mem _ hq', he⟩
+
+theorem lemma_cnt_zero (cfg : WinCfg) (txt : Bytes) (st : WinStore) (reqs : List WinReq) (k : Bytes) (ws : Nat)
+    (h : ∀ q ∈ reqs, ws < windowStart cfg.W q.now) : cnt (k, ws) (admSerial cfg txt st reqs) = 0 := by
+  unfold cnt
+  rw [List.length_eq_zero_iff, List.filter_eq_nil_iff]
+  intro kw hkw heq
+  have : kw = (k, ws) := by simpa using heq
+  obtain ⟨q, hq, he⟩ := lemma_adm_windows cfg txt st reqs kw hkw
+  have := h q hq
+  rw [‹kw = (k, ws)›] at he
+  simp only at he
+  omega
+
+/-- a request that runs under an enforcing configuration saw a usage below the limit, and the usage
+    is at least the number of requests already counted in its window -/
+theorem lemma_ran_lt (cfg : WinCfg) (txt : Bytes) (w : Win) (now : Nat) (hW : 1 ≤ cfg.W)
+    (henf : cfg.enforce = true ∨ cfg.hasCallback = true)
+    (h : (winAnswer cfg txt (decide_ cfg.limit cfg.W w now)).ran = true) : w.cur < cfg.limit := by
+  have hu : (decide_ cfg.limit cfg.W w now).usage < cfg.limit := by
+    unfold winAnswer at h
+    by_cases hge : (decide_ cfg.limit cfg.W w now).usage ≥ cfg.limit
+    · exfalso
+      simp only [hge, if_true] at h
+      rcases henf with he | hc
+      · by_cases hc : cfg.hasCallback = true <;> simp [he, hc] at h
+      · simp [hc] at h
+    · omega
+  have hle : w.cur ≤ (decide_ cfg.limit cfg.W w now).usage := by
+    unfold decide_
+    simp only
+    rw [Nat.le_div_iff_mul_le (by unfold nsPerSec; omega)]
+    exact Nat.le_add_right _ _
+  omega
+
+/-- the count an entry holds for the window starting at `ws` -/
+def curIn (e : Option Win) (ws : Nat) : Nat :=
+  match e with
+  | some w => if w.ws = ws then w.cur else 0
+  | none => 0
+
+/-- what `GetCounts` hands the middleware when the entry is not ahead of the request's window:
+    an entry of that window whose count is the number already counted in it -/
+theorem lemma_getCounts (W : Nat) (e : Option Win) (now : Nat)
+    (he : ∀ w, e = some w → w.ws ≤ windowStart W now) :
+    (getCounts W e now).ws = windowStart W now ∧
+    (getCounts W e now).cur = curIn e (windowStart W now) := by
+  unfold getCounts curIn
+  generalize windowStart W now = ws0 at he ⊢
+  cases e with
+  | none => exact ⟨rfl, rfl⟩
+  | some w =>
+    have hle := he w rfl
+    by_cases hlt : w.ws < ws0
+    · have hne : ¬ w.ws = ws0 := by omega
+      simp only [hlt, if_true, hne, if_false, and_self]
+    · have heq : w.ws = ws0 := by omega
+      have hirr : ¬ ws0 < ws0 := Nat.lt_irrefl _
+      simp only [heq, hirr, if_false, if_true]
+      first | exact ⟨trivial, trivial⟩ | exact ⟨heq, trivial⟩ | simp [heq]
+
+theorem lemma_incr_same (W : Nat) (w : Win) (now : Nat) (h : w.ws = windowStart W now) :
+    incr W (some w) now = { w with cur := w.cur + 1 } := by
+  unfold incr
+  generalize windowStart W now = ws0 at h ⊢
+  have : ¬ w.ws < ws0 := by omega
+  simp only [this, if_false]
+
+/-- **The counting invariant of the sliding window** (requests served one after the other, clock
+    non-decreasing, entries not ahead of the clock): for every key and window, the requests still to
+    be admitted in that window plus those already counted in it do not exceed the limit. -/
+theorem lemma_window_count (cfg : WinCfg) (txt : Bytes) (hW : 1 ≤ cfg.W)
+    (henf : cfg.enforce = true ∨ cfg.hasCallback = true) (st : WinStore) (reqs : List WinReq)
+    (hsorted : reqs.Pairwise (fun a b => a.now ≤ b.now))
+    (hst : ∀ k w, st.lookup k = some w → ∀ q ∈ reqs, w.ws ≤ windowStart cfg.W q.now)
+    (k : Bytes) (ws : Nat) :
+    cnt (k, ws) (admSerial cfg txt st reqs) ≤ cfg.limit - counted st k ws := by
+  induction reqs generalizing st with
+  | nil => simp [admSerial, cnt]
+  | cons q rest ih =>
+    obtain ⟨hq_le, hsorted'⟩ := List.pairwise_cons.mp hsorted
+    -- the entry of q's key as GetCounts returns it and Incr leaves it
+    have hge := lemma_getCounts cfg.W (st.lookup q.key) q.now
+      (fun w hw => hst q.key w hw q (List.mem_cons_self ..))
+    generalize hw : getCounts cfg.W (st.lookup q.key) q.now = w at hge
+    obtain ⟨hws, hcur⟩ := hge
+    have hcur' : w.cur = counted st q.key (windowStart cfg.W q.now) := by rw [hcur]; rfl
+    have hinc := lemma_incr_same cfg.W w q.now hws
+    have hst1 : (serve1 cfg txt st q).1 = st.set q.key { w with cur := w.cur + 1 } := by
+      unfold serve1; simp only [hw, hinc]
+    have hans : (serve1 cfg txt st q).2 = winAnswer cfg txt (decide_ cfg.limit cfg.W w q.now) := by
+      unfold serve1; simp only [hw]
+    -- the invariant's hypothesis for the rest
+    have hst' : ∀ k' w', ((serve1 cfg txt st q).1).lookup k' = some w' → ∀ q' ∈ rest, w'.ws ≤ windowStart cfg.W q'.now := by
+      intro k' w' hl q' hq'
+      rw [hst1] at hl
+      by_cases hk : k' = q.key
+      · subst hk
+        rw [lemma_wlookup_set_self] at hl
+        simp only [Option.some.injEq] at hl
+        rw [← hl]; simp only
+        rw [hws]
+        exact lemma_windowStart_mono _ _ _ (hq_le q' hq')
+      · rw [lemma_wlookup_set_other _ _ _ _ hk] at hl
+        exact hst k' w' hl q' (List.mem_cons_of_mem _ hq')
+    have ih' := ih (serve1 cfg txt st q).1 hsorted' hst'
+    simp only [admSerial, lemma_cnt_append]
+    by_cases hk : k = q.key
+    · subst hk
+      by_cases hwin : ws = windowStart cfg.W q.now
+      · -- the request belongs to the window in question
+        subst hwin
+        have hc' : counted (serve1 cfg txt st q).1 q.key (windowStart cfg.W q.now) = w.cur + 1 := by
+          rw [hst1]; unfold counted; rw [lemma_wlookup_set_self]; simp [hws]
+        rw [hc'] at ih'
+        rw [← hcur']
+        unfold adm1
+        by_cases hran : (serve1 cfg txt st q).2.ran = true
+        · have hlt := lemma_ran_lt cfg txt w q.now hW henf (by rw [← hans]; exact hran)
+          simp only [hran, if_true, cnt, List.filter_cons, beq_self_eq_true, List.filter_nil, List.length_cons,
+            List.length_nil] at ih' ⊢
+          omega
+        · have hran' : (serve1 cfg txt st q).2.ran = false := by simpa using hran
+          simp only [hran', Bool.false_eq_true, if_false, cnt, List.filter_nil, List.length_nil] at ih' ⊢
+          omega
+      · -- another window of the same key
+        have hc' : counted (serve1 cfg txt st q).1 q.key ws = 0 := by
+          rw [hst1]; unfold counted; rw [lemma_wlookup_set_self]
+          have : ¬ windowStart cfg.W q.now = ws := fun h => hwin h.symm
+          simp [hws, this]
+        have hadm : cnt (q.key, ws) (adm1 cfg q (serve1 cfg txt st q).2) = 0 := by
+          unfold adm1 cnt; split
+          · have : ¬ windowStart cfg.W q.now = ws := fun h => hwin h.symm
+            simp [this]
+          · simp
+        rw [hadm, Nat.zero_add]
+        by_cases hc0 : counted st q.key ws = 0
+        · rw [hc0]; rw [hc'] at ih'; exact ih'
+        · -- the entry sits in an earlier window: no later request can fall into it
+          have hlt : ws < windowStart cfg.W q.now := by
+            unfold counted at hc0
+            cases hl : st.lookup q.key with
+            | none => simp [hl] at hc0
+            | some e =>
+              simp only [hl] at hc0
+              by_cases he : e.ws = ws
+              · have := hst q.key e hl q (List.mem_cons_self ..)
+                omega
+              · simp [he] at hc0
+          rw [lemma_cnt_zero cfg txt _ rest q.key ws (fun q' hq' =>
+            Nat.lt_of_lt_of_le hlt (lemma_windowStart_mono _ _ _ (hq_le q' hq')))]
+          exact Nat.zero_le _
+    · -- another key: the entry of `k` is untouched
+      have hadm : cnt (k, ws) (adm1 cfg q (serve1 cfg txt st q).2) = 0 := by
+        unfold adm1 cnt; split
+        · have : ¬ q.key = k := fun h => hk h.symm
+          simp [this]
+        · simp
+      have hc' : counted (serve1 cfg txt st q).1 k ws = counted st k ws := by
+        rw [hst1]; unfold counted; rw [lemma_wlookup_set_other _ _ _ _ hk]
+      rw [hadm, Nat.zero_add, ← hc']
+      exact ih'
+
+/-- the oracle's list of admitted (key, window) pairs, read off the serial run -/
+theorem lemma_admitted_serial (cfg : WinCfg) (txt : Bytes) (reqs rest pre : List WinReq) (st : WinStore)
+    (hreqs : reqs = pre ++ rest) :
+    (runSerial cfg txt st pre.length rest).filterMap (admittedOf cfg reqs) = admSerial cfg txt st rest := by
+  induction rest generalizing pre st with
+  | nil => simp [runSerial, admSerial]
+  | cons q rest ih =>
+    have hq : reqs[pre.length]? = some q := by rw [hreqs]; simp
+    have := ih (pre ++ [q]) (serve1 cfg txt st q).1 (by rw [hreqs]; simp)
+    simp only [List.length_append, List.length_cons, List.length_nil, Nat.zero_add] at this
+    simp only [runSerial, admSerial, List.filterMap_cons]
+    unfold admittedOf adm1
+    simp only [hq]
+    by_cases hran : (serve1 cfg txt st q).2.ran = true
+    · simp only [hran, if_true, List.cons_append, List.nil_append]
+      rw [← this]; rfl
+    · have hran' : (serve1 cfg txt st q).2.ran = false := by simpa using hran
+      simp only [hran', Bool.false_eq_true, if_false, List.nil_append]
+      rw [← this]; rfl
+
+/-- **Sliding window, sequential bound**: when requests are served one after the other (the serial
+    schedule: each request's `GetCounts` and `Incr` back to back) on a non-decreasing clock, then per
+    key and fixed window no more than `limit` requests reach the handler — any number of keys, any
+    number of windows, rejected requests and carried-over counts included. -/
+theorem window_sequential_bound (cfg : WinCfg) (txt : Bytes) (reqs : List WinReq) (hW : 1 ≤ cfg.W)
+    (hsorted : reqs.Pairwise (fun a b => a.now ≤ b.now)) :
+    windowBoundOK cfg reqs (runWin cfg txt reqs (serial reqs.length)) = true := by
+  unfold windowBoundOK
+  by_cases hrep : (!cfg.enforce && !cfg.hasCallback) = true
+  · simp only [hrep, if_true]
+  · have hrep' : (!cfg.enforce && !cfg.hasCallback) = false := by simpa using hrep
+    simp only [hrep', Bool.false_eq_true, if_false]
+    have henf : cfg.enforce = true ∨ cfg.hasCallback = true := by
+      cases he : cfg.enforce <;> cases hc : cfg.hasCallback <;> simp [he, hc] at hrep' ⊢
+    rw [lemma_runWin_serial]
+    have hadm := lemma_admitted_serial cfg txt reqs reqs [] [] rfl
+    simp only [List.length_nil] at hadm
+    rw [hadm]
+    rw [List.all_eq_true]
+    intro kw _
+    have := lemma_window_count cfg txt hW henf [] reqs hsorted (by intro k w h; simp at h) kw.1 kw.2
+    simp only [decide_eq_true_eq]
+    have hc : counted [] kw.1 kw.2 = 0 := rfl
+    rw [hc, Nat.sub_zero] at this
+    exact this
+
+/-- the classes of inputs the two recorded findings live in, as the driver computes them: a schedule
+    that is not serial (K16b race) and a case that retries after Retry-After (K16b truthfulness) -/
+def Excluded (reqs : List WinReq) (sched : List Op) (retries : List (Nat × Nat)) : Prop :=
+  sched ≠ serial reqs.length ∨ retries ≠ []
+
+/-- **the sliding-window oracle holds outside the two recorded classes** -/
+theorem window_meets_spec_partial (cfg : WinCfg) (txt : Bytes) (reqs : List WinReq) (sched : List Op)
+    (retries : List (Nat × Nat)) (hW : 1 ≤ cfg.W) (hsorted : reqs.Pairwise (fun a b => a.now ≤ b.now))
+    (hD : ¬ Excluded reqs sched retries) :
+    (windowBoundOK cfg reqs (runWin cfg txt reqs sched) && retryOK reqs (runWin cfg txt reqs sched) retries) = true := by
+  unfold Excluded at hD
+  have h1 : sched = serial reqs.length := Classical.byContradiction fun h => hD (Or.inl h)
+  have h2 : retries = [] := Classical.byContradiction fun h => hD (Or.inr h)
+  subst h1 h2
+  rw [window_sequential_bound cfg txt reqs hW hsorted]
+  simp [retryOK]
+
+/-- K16b, the race: limit 1, both requests read the count before either increments it — both reach
+    the handler, the oracle fails -/
+theorem window_race_witness :
+    let cfg : WinCfg := { limit := 1, W := 3600, headers := true, enforce := true, hasCallback := false }
+    let reqs : List WinReq := [{ key := ['a'], now := 7200000000007 }, { key := ['a'], now := 7200000000008 }]
+    let sched := [Op.get 0, Op.get 1, Op.inc 0, Op.inc 1]
+    (runWin cfg [] reqs sched).map (fun a => a.2.ran) = [true, true] ∧
+    windowBoundOK cfg reqs (runWin cfg [] reqs sched) = false ∧
+    (runWin cfg [] reqs (serial 2)).map (fun a => a.2.status) = [200, 429] := by
+  decide
+
+/-- K16b, Retry-After: limit 2, window 2 s. The third request is rejected with `Retry-After: 2`; the
+    retry 2.003 s later (no other traffic) falls 0.103 s into the next window, where the three counted
+    requests carry over with weight 0.9485 — usage 2.8 — and is rejected again -/
+theorem window_retry_untruthful_witness :
+    let cfg : WinCfg := { limit := 2, W := 2, headers := true, enforce := true, hasCallback := false }
+    let reqs : List WinReq := [{ key := ['a'], now := 10100000000 }, { key := ['a'], now := 10101000000 },
+                               { key := ['a'], now := 10102000000 }, { key := ['a'], now := 12105000000 }]
+    (runWin cfg [] reqs (serial 4)).map (fun a => (a.2.status, a.2.retryAfter)) =
+      [(200, none), (200, none), (429, some 2), (429, some 2)] ∧
+    retryOK reqs (runWin cfg [] reqs (serial 4)) [(2, 3)] = false := by
+  decide
+
 /-! ## witnesses and non-vacuity -/
 
 /-- K16a: as shipped, a call rejected for half a token at one token per second reported
